@@ -26,8 +26,8 @@ CHECKS = {
    note="Programs the analyzer rejects (function without return, CFG errors) are outside F1-F4 (C16's subject) and counted. The former open finding KF-C11-1 (a function reaching the exits of two other functions kept two returns) was repaired in /repo (ebf26fb); its reverse patch is a seeded case.",
    technique="deterministic simulation: schedule search with an independent traversal as oracle"),
  "C12": dict(level="exploration", design="§5.5",
-   text="Histories of 1-8 extra runs of AvailableValuePass / EcallTerminationPass / LivenessPass / run_diagnostics applied to the finished graph: after every step the snapshot (edges by identity, seven fact kinds per node, functions) and the lint items equal those right after the pipeline; a second analysis of the same parsed nodes on one thread and the analyses under further entropy seeds give equal snapshots; sweeps per pass run (from the tick hook) stay within 4*nodes+16 and a hard cap turns oscillation into a reported non-convergence; the facts satisfy the analyses' own equations on the finished graph (what a node assumes on entry is left by every predecessor, live_out is the union of the successors' live_in); and a fixed scaling scenario (one program family at size m and 2m) requires the sweeps per node not to grow with the program.",
-   note="Trusted: the tick hook's sweep counts; the snapshot's textual rendering of facts (sorted).",
+   text="Histories of 1-8 extra runs of AvailableValuePass / EcallTerminationPass / LivenessPass / run_diagnostics applied to the finished graph: after every step the snapshot (edges by identity, seven fact kinds per node, functions) and the lint items equal those right after the pipeline; a second analysis of the same parsed nodes on one thread and the analyses under further entropy seeds give equal snapshots; sweeps per pass run (from the tick hook) stay within 4*nodes+16 and a hard cap turns oscillation into a reported non-convergence; the facts satisfy the analyses' own equations on the finished graph (what a node assumes on entry is left by every predecessor, live_out is the union of the successors' live_in); and two fixed scaling scenarios (a program family at size m and 2m each) require the sweeps per node not to grow with the program.",
+   note="Trusted: the tick hook's sweep counts; the snapshot's textual rendering of facts (sorted). One open known finding (KF-C12-2), matched by class and family.",
    technique="deterministic simulation: operation histories on a stateful object with snapshot equality"),
  "C06": dict(level="fault_enumeration", design="§5.2",
    text="Crash- and hang-freedom under injected faults: generated worlds take content faults (torn, lost, replayed and interleaved writes, bit flips, byte substitutions, CRLF/CR, NUL, BOM, invalid UTF-8, a size multiplier), include-graph shapes (self-include, cycles, missing file, directory / dangling symlink / symlink loop in place of a file), reader faults (five error kinds x import index, enumerated from the run index, three reader personalities) in process, and system-call faults (failing n-th open/read/realpath, short reads, EINTR, TOCTOU redirect of a re-open; enumerated from the run index) and environment faults (standard output on a full disk or a closed pipe, the base file under a name that is not UTF-8, a named pipe fed once in place of the base file) through the real rva in nine output modes and both build profiles. Oracle: no panic (overflow checks and debug assertions on), no signal/abort/non-zero exit (status 1 without a panic is accepted only when standard output was made to fail), no blocking (no-progress watchdog), import budget, tick bounds on the parse loop and on the sweeps of both analyses, CPU and address-space rlimits on every child, JSON mode prints JSON.",
@@ -83,7 +83,7 @@ def main():
       }],
       "checks": checks,
       "not_applicable": na,
-      "notes": "Technique family: deterministic simulation with fault injection. See DESIGN.md. Known findings / fixed defects: /verif/known_findings.json (no open finding; repairs listed under 'fixed', the later ones each with its reverse patch under /verif/seeded/revert-<commit>/). Determinism proof: ./check determinism <ID> <N>. Seeded changes and what catches them: /verif/seeded/RESULTS.md.",
+      "notes": "Technique family: deterministic simulation with fault injection. See DESIGN.md. Known findings / fixed defects: /verif/known_findings.json (one open finding, KF-C12-2: sweeps grow with the square of the program in one purpose-built family; repairs listed under 'fixed', the later ones each with its reverse patch under /verif/seeded/revert-<commit>/). Determinism proof: ./check determinism <ID> <N>. Seeded changes and what catches them: /verif/seeded/RESULTS.md.",
     }
     json.dump(m, open("/verif/MANIFEST.json","w"), indent=1)
     print("MANIFEST.json written:", [c["property_id"] for c in checks])
